@@ -117,6 +117,16 @@ def _ladder_one(case):
             def before_eval(s, d, e): s.n += 1; s.maxd = max(s.maxd, d)
             def after_eval(s, d, e, rr): pass
         rec = Rec()
+    peak = [0, 0]; Orig = interpret.StackFrame
+    if case.get("frames"):
+        # count the evaluator frames that are alive (= len(tail) in evaluate) from outside: a subclass installed for this run only
+        class CountingFrame(Orig):
+            def __init__(s, request): super().__init__(request); peak[1] += 1; peak[0] = max(peak[0], peak[1])
+            def communicate(s, response):
+                res_ = super().communicate(response)
+                if isinstance(res_, interpret.ComputationResult): peak[1] -= 1
+                return res_
+        interpret.StackFrame = CountingFrame
     old = sys.stdin, sys.stdout; sys.stdin = io.StringIO(""); sys.stdout = io.StringIO()
     signal.signal(signal.SIGALRM, vlib._alarm); signal.setitimer(signal.ITIMER_REAL, case.get("tlimit", 60))
     t = time.time()
@@ -131,8 +141,8 @@ def _ladder_one(case):
         except MemoryError as e: res = "HOST MemoryError"
         except BaseException as e: res = vlib.host_site(e)
     finally:
-        signal.setitimer(signal.ITIMER_REAL, 0); sys.stdin, sys.stdout = old; sys.setrecursionlimit(1000)
-    return res, round(time.time() - t, 2), (rec.maxd if rec else None)
+        signal.setitimer(signal.ITIMER_REAL, 0); sys.stdin, sys.stdout = old; sys.setrecursionlimit(1000); interpret.StackFrame = Orig
+    return res, round(time.time() - t, 2), (rec.maxd if rec else None), peak[0]
 
 def loops(n):
     """tail-loop families, each applied to n iterations: name -> (program, expected printed result)"""
@@ -145,6 +155,11 @@ def loops(n):
      "accumulator":  (f"{E(n)} ㄱ ((ㄴㅇㄱ) ({dec} (ㄴㅇㄱ ㄴ ㄷㅎㄷ) ㄱㅇ ㅎㄷ) ((ㄴㅇㄱ ㄱ ㅈㅎㄷ) ({z}) ㄷㅎㄷ) ㅎㄷ ㅎ) ㅎㄷ", str(n)),
      "via-identity": (f"{E(n)} (ㄱ (({dec} ㄱㅇ ㅎㄴ) (ㄱㅇㄱ ㅎ) ㅎㄴ) ({z}) ㅎㄷ ㅎ) ㅎㄴ", "0"),                               # the recursive call passes through a lazy identity
      "via-selector": (f"{E(n)} (ㄱ ({dec} ㄱㅇ ㅎㄴ) ({z}) (ㄱㅇㄱ ㄴㅇㄱ ㄷㅇㄱ ㅎㄷ ㅎ) ㅎㄹ ㅎ) ㅎㄴ", "0"),                     # sel(a, b, c) = c(a, b) written by the user
+     # f(k, best) = (k == 0)(best, f(k - 1, (best < k)(k, best))): lazily passed state updated by a selection that ends in a bare reference to an already forced value
+     #   (the loop test looks at `best` every round, so the state is forced as the loop goes)
+     "running-max":  (f"{E(n)} ㄱ ((ㄴㅇㄱ) ({dec} ((ㄱㅇㄱ) (ㄴㅇㄱ) ((ㄴㅇㄱ) (ㄱㅇㄱ) ㅈㅎㄷ) ㅎㄷ) ㄱㅇ ㅎㄷ) ((ㄴㅇㄱ ㄱ ㅈㅎㄷ) ({z}) ㄷㅎㄷ) ㅎㄷ ㅎ) ㅎㄷ", str(n)),
+     # loop(i, best) = (best < n)(loop(i + 1, (best < i)(i, best)), best) from (0, 0): counts up, the new state is a bare reference to the forced counter
+     "running-max-up": (f"ㄱ ㄱ (((ㄱㅇㄱ ㄴ ㄷㅎㄷ) ((ㄱㅇㄱ) (ㄴㅇㄱ) (ㄴㅇㄱ ㄱㅇㄱ ㅈㅎㄷ) ㅎㄷ) ㄱㅇ ㅎㄷ) (ㄴㅇㄱ) (ㄴㅇㄱ {E(n)} ㅈㅎㄷ) ㅎㄷ ㅎ) ㅎㄷ", str(n)),
      "mutual":       (f"{E(n)} (ㄱ ({dec} ({g_body} ㅎ) ㅎㄴ) ({z}) ㅎㄷ ㅎ) ㅎㄴ", "0"),                                      # f calls g (defined inside f), g calls f
      "io-bind":      (f"{E(n)} ((ㄱ ㄱㅅㅎㄴ) ((ㄱ ㄱㅅㅎㄴ) ((ㄱㅇㄴ ㄴㄱ ㄷㅎㄷ) ㄴㅇ ㅎㄴ ㅎ) ㄱㄹㅎㄷ) ({z}) ㅎㄷ ㅎ) ㅎㄴ", "0"),      # loop(k) = (k==0)(return 0, return 0 >>= \\_. loop(k-1))
     }
@@ -170,7 +185,7 @@ def c05_ladders(r, seed, tier, model_ok):
     out = pmap(_ladder_one, cases, chunksize=1)
     bad = []; table = collections.defaultdict(dict); depths = {}
     for c, m, o in zip(cases, meta, out):
-        name, n, obs, want = m; res, secs, maxd = o
+        name, n, obs, want = m; res, secs, maxd = o[:3]
         table[name + ("+observer" if obs else "")][n] = res.split()[0] + f" {secs}s"
         if name == "lazy-accumulator":      # completes while the pending chain fits the frame limit, explicit limit beyond; never a host error
             if not (res == f"V {n}" or (res == "LIMIT" and n > 4000)): bad.append(dict(program=c["text"], impl=res, model=f"V {n}, or the explicit limit when the chain of {n} pending additions exceeds the frame limit", which=["lazy-accumulator"]))
@@ -185,7 +200,13 @@ def c05_ladders(r, seed, tier, model_ok):
         if obs and maxd is not None: depths.setdefault(name, {})[n] = maxd
     for name, dd in depths.items():
         if len(dd) >= 2 and max(dd.values()) > min(dd.values()) + 3 and False: pass
-    r.slice("iteration_ladders", len(cases), len(cases), [cases[0]["text"], cases[7]["text"]], dict(table=table, observer_max_depth=depths, host_recursion_limit=400),
+    # peak number of live evaluator frames must not depend on the iteration count (measured at N = 50, 200, 800)
+    fr = {}
+    for name in loops(1):
+        fr[name] = [_ladder_one(dict(text=loops(n)[name][0], frames=True, tlimit=120))[3] for n in (50, 200, 800)]
+        if max(fr[name]) > min(fr[name]) + 2:
+            bad.append(dict(program=loops(200)[name][0], impl=f"peak live evaluator frames at N = 50 / 200 / 800: {fr[name]}", model="a tail loop uses constant evaluator stack", which=["frames-grow"]))
+    r.slice("iteration_ladders", len(cases), len(cases), [cases[0]["text"], cases[7]["text"]], dict(table=table, observer_max_depth=depths, peak_live_frames_at_50_200_800=fr, host_recursion_limit=400),
             "six tail-loop families x N in 10..10^5(6) x observer on/off under recursion limit 400; non-tail depths across the frame limit; distinct = all cases", bad)
     # nesting ladders: host recursion in formatter / recursive_strict / as_key / _bind is a KNOWN finding; any OTHER site is a violation
     nest = []
